@@ -152,11 +152,16 @@ def constant_rules(chk, lib, dirs, rule_iv, rule_k, unit_floor, ctx_floor, ctx_p
         if A == "SM3" and gens and len(have) < len(K) // 4:
             missing = []            # T_j <<< j is computed from the two generators at run time
         order = ci.ordered(K, kw) if not missing else None
-        ok = not missing and order is not False
-        chk.obligation(rule_k, ok, key=(o.name, "K"), sample={"unit": o.src, "algorithm": A, "round_constants_found": len(have), "of": len(K), "table_in_standard_order": order})
+        tabs = ci.tables_like(K, kw)
+        badtab = [(t, t[3][0]) for t in tabs if t[3]]
+        ok = not missing and order is not False and not badtab
+        chk.obligation(rule_k, ok, key=(o.name, "K"), sample={"unit": o.src, "algorithm": A, "round_constants_found": len(have), "of": len(K), "table_in_standard_order": order, "tables": [(t[0], t[1], t[2]) for t in tabs]})
         if missing:
             k, v = missing[0]
             chk.finding(Finding(rule_k, o.name, "<unit>", "K[%d]" % k, "the %s round constant K[%d] = %#x does not occur in this unit, which implements the round function (%d of %d constants present)" % (A, k, v, len(have), len(K)), loc=o.src))
+        elif badtab:
+            (nm, off, r, bad), (j, lane, got) = badtab[0]
+            chk.finding(Finding(rule_k, o.name, "<unit>", "K[%d]" % j, "the %s round-constant table at %s+%#x (%d copies per entry) holds %#x in copy %d of entry %d; the standard value is %#x (%d differing word(s))" % (A, nm, off, r, got, lane, j, K[j], len(bad)), loc=o.src))
         elif order is False:
             chk.finding(Finding(rule_k, o.name, "<unit>", "K-order", "all %s round constants occur in a data table of this unit but not in the standard order" % A, loc=o.src))
     for A, n in unit_floor.items():
